@@ -473,7 +473,14 @@ func (p *idxProver) upperRel(v ssa.Value, at ssa.Instruction) (ssa.Value, int64,
 			return s, k, true
 		}
 	}
-	// facts: v < len(S), v <= len(S) - c ...
+	return p.upperRelFacts(v, at, nil)
+}
+
+// upperRelFacts: an upper relation v <= len(S)+k taken from the branch facts at the instruction
+// (v < len(S), v <= len(S) - c ...). With want != nil only a relation to that base is returned —
+// a value that is itself a length (n := len(start)) has a trivial relation to its own base and a
+// second, useful one to the base it was compared with (len(path) >= n).
+func (p *idxProver) upperRelFacts(v ssa.Value, at ssa.Instruction, want ssa.Value) (ssa.Value, int64, bool) {
 	for _, f := range p.facts(at) {
 		b, ok := f.Cond.(*ssa.BinOp)
 		if !ok {
@@ -493,6 +500,9 @@ func (p *idxProver) upperRel(v ssa.Value, at ssa.Instruction) (ssa.Value, int64,
 			op = negOp(op)
 		}
 		if s, k, ok := p.upperRel(other, at); ok && other != v {
+			if want != nil && !sameVal(s, want) {
+				continue
+			}
 			// v OP other, other <= len(s)+k
 			switch op {
 			case token.LSS:
@@ -1048,6 +1058,9 @@ func (p *idxProver) collect(f *ssa.Function) []idxOb {
 					}
 				} else {
 					s, k, okr := p.upperRel(x.High, in)
+					if !okr || !sameVal(s, base) {
+						s, k, okr = p.upperRelFacts(x.High, in, base)
+					}
 					if !okr || !sameVal(s, base) || k-bk > 0 {
 						ok, d = false, "no proof that high <= len("+nameOf(x.X)+")"
 					} else {
